@@ -114,6 +114,82 @@ func outInModel(t *types.VerifTy) bool {
 	return true
 }
 
+// aliasNested: an alias occurs below the top level of the type. The lattice model has no alias constructor, so a
+// nested alias cannot act as a receiver inside asg (Array[Data] accepts Array[Data] in the code through the
+// pointer shortcut / the alias' own IsAssignable): such operands of commonType are outside the model.
+func aliasNested(t *types.VerifTy) bool {
+	for _, e := range t.Ts {
+		if lat.Contains(e, "Alias") {
+			return true
+		}
+	}
+	for _, e := range t.Keys {
+		if lat.Contains(e, "Alias") {
+			return true
+		}
+	}
+	return false
+}
+
+// operandAliasNested: some collection inside v (or v itself) has an inferred type with a nested alias; that type
+// is an operand of commonType when the inferred type of the enclosing collection is folded
+func operandAliasNested(v px.Value) (nested bool) {
+	defer func() {
+		if r := recover(); r != nil {
+			nested = true
+		}
+	}()
+	switch v := v.(type) {
+	case *types.Array:
+		if aliasNested(types.VerifDecodeType(v.PType())) {
+			return true
+		}
+		v.Each(func(x px.Value) {
+			if operandAliasNested(x) {
+				nested = true
+			}
+		})
+	case *types.Hash:
+		if aliasNested(types.VerifDecodeType(v.PType())) {
+			return true
+		}
+		v.EachPair(func(k, x px.Value) {
+			if operandAliasNested(k) || operandAliasNested(x) {
+				nested = true
+			}
+		})
+	case *types.Sensitive:
+		return operandAliasNested(v.Unwrap())
+	}
+	return
+}
+
+// childAliasNested: operandAliasNested for the elements of v (the type of v itself is a result, not an operand)
+func childAliasNested(v px.Value) (nested bool) {
+	defer func() {
+		if r := recover(); r != nil {
+			nested = true
+		}
+	}()
+	switch v := v.(type) {
+	case *types.Array:
+		v.Each(func(x px.Value) {
+			if operandAliasNested(x) {
+				nested = true
+			}
+		})
+	case *types.Hash:
+		v.EachPair(func(k, x px.Value) {
+			if operandAliasNested(k) || operandAliasNested(x) {
+				nested = true
+			}
+		})
+	case *types.Sensitive:
+		return childAliasNested(v.Unwrap())
+	}
+	return
+}
+
 func allASCII(t *types.VerifTy, v *types.VerifVal) bool {
 	pats, strs := map[string]bool{}, map[string]bool{}
 	if t != nil {
@@ -598,7 +674,8 @@ func run(cfg *lib.Config, res *lib.Result) {
 	imports := []string{"Model.Base", "Model.Ty", "Model.Lattice", "Model.Infer", "Corr.CorrC01", "Corr.CorrC04"}
 	var vidx []int
 	for i, x := range vals {
-		if !obs[i].crash && lat.ValInModel(x.dec) && outInModel(obs[i].pdec) && outInModel(obs[i].ddec) && allASCII(nil, x.dec) {
+		if !obs[i].crash && lat.ValInModel(x.dec) && outInModel(obs[i].pdec) && outInModel(obs[i].ddec) && allASCII(nil, x.dec) &&
+			!childAliasNested(x.v) {
 			vidx = append(vidx, i)
 		}
 	}
@@ -640,7 +717,7 @@ func run(cfg *lib.Config, res *lib.Result) {
 	}
 
 	// ---- M: common cases: merged results first, then operands; and data/rich assignability
-	modelTy := func(e *tyEntry) bool { return outInModel(e.dec) && allASCII(e.dec, nil) }
+	modelTy := func(e *tyEntry) bool { return outInModel(e.dec) && allASCII(e.dec, nil) && !aliasNested(e.dec) }
 	var cm, co []cobs
 	for _, c := range commons {
 		if !modelTy(tys[c.a]) || !modelTy(tys[c.b]) || !outInModel(c.c) {
